@@ -174,6 +174,50 @@ def drive_consumers():
             REC.crashed("C07.call_raised", e)
 
 
+def drive_single_shell_consumers():
+    """history: a position grid with ONE radial shell (radius != 1 A) is built and assembled on top of a direction grid; afterwards the
+    direction grid object must still hold unit vectors"""
+    from molgri.space.fullgrid import FullGrid, PositionGrid
+    for o, t in (("ico_12", "[0.3]"), ("cube3D_9", "0.25"), ("randomS_7", "[1.7]"), ("ico_5", "[0.05]")):
+        REC.begin_case({"kind": "direction grid after a single-shell position grid", "o": o, "t": t}, cls="grid after its consumers")
+        try:
+            fg = FullGrid("4", o, t)
+            fg.get_full_grid_as_array(); fg.get_position_grid().get_position_grid_as_array(); fg.get_full_adjacency()
+            og = fg.get_position_grid().get_o_grid()
+            grid3d_is_N_distinct_unit_points(og.algorithm_name, og.N, og)
+            pg = PositionGrid(o_grid_name=o, t_grid_name=t)
+            pg.get_position_grid_as_array(); pg.get_position_grid_as_array()
+            grid3d_is_N_distinct_unit_points(pg.get_o_grid().algorithm_name, pg.get_o_grid().N, pg.get_o_grid())
+            REC.nontrivial_case(("single shell", o, t))
+        except Exception as e:
+            REC.crashed("C07.call_raised", e)
+
+
+def drive_churn(F3, F4, seed, rounds):
+    """object churn: direction grids with 2N points are built, asked for their upper half, and dropped; right afterwards a rotation grid
+    with N rotations (whose double cover also has 2N rows) is built on memory the allocator has just got back. Anything remembered under
+    the address of a freed object surfaces here (CPython reuses such addresses within a few allocations)."""
+    import gc
+    import random
+    rng = random.Random(seed)
+    for _ in range(rounds):
+        N = rng.randint(4, 14)
+        a3, a4 = rng.choice(["ico", "cube3D", "randomS"]), rng.choice(["cube4D", "randomQ"])
+        REC.begin_case({"kind": "churn", "N": N, "alg3": a3, "alg4": a4}, cls="object churn")
+        try:
+            for _ in range(rng.randint(1, 3)):
+                g3 = F3.create(alg_name=a3, N=2 * N)
+                g3.get_grid_as_array(only_upper=True)
+                g3.get_upper_indices()
+                del g3
+            if rng.random() < 0.5:
+                gc.collect()
+            F4.create(alg_name=a4, N=N)
+            REC.nontrivial_case(("churn", N, a3, a4))
+        except Exception as e:
+            REC.crashed("C07.call_raised", e)
+
+
 def install():
     import molgri.space.utils as U
     attach.ensure(U, "hemisphere_quaternion_set", hemisphere_set_is_canonical)
@@ -239,6 +283,7 @@ def shards(tier, seed):
         load[k] += c
     out = [{"jobs": b} for b in buckets if b]
     out[-1]["by_name"] = True
+    out += [{"jobs": [], "churn": 40 if tier == "quick" else 150, "rseed": seed * 100 + i} for i in range(2 if tier == "quick" else 8)]
     return out
 
 
@@ -250,6 +295,9 @@ def run_shard(spec):
         by_name(F3, F4)
         drive_hemisphere(10 if spec["tier"] == "quick" else 100, spec.get("seed", 0))
         drive_consumers()
+        drive_single_shell_consumers()
+    if spec.get("churn"):
+        drive_churn(F3, F4, spec["rseed"], spec["churn"])
 
 
 def replay(case):
